@@ -7,10 +7,10 @@ import io
 import zlib
 
 STYLES = ['canon', 'lf', 'nospace', 'xspace', 'lower', 'upper', 'fold', 'dup',
-          'empty', 'obstext']
+          'empty', 'obstext', 'junkline']
 FRAMINGS = ['cl', 'cl0', 'chunked1', 'chunked_ext', 'chunked_lf', 'close',
             'overrun', 'n204', 'n304', 'n304cl', 'headcl', 'headte', 'te_cl',
-            'http10', 'connclose', 'badcl']
+            'http10', 'connclose', 'badcl', 'n404']
 BODIES = ['text', 'empty', 'binary', 'gzip', 'deflate', 'rawdeflate']
 
 BODY_BYTES = {
@@ -59,6 +59,9 @@ def fmt_headers(style, status_line, fields):
     if style == 'obstext':
         fields.append(('X-Obs', 'caf\xe9\x85z\x1cq'))
     out = [status_line.encode('latin-1') + eol]
+    if style == 'junkline':
+        # a stray line without a colon, tolerated by lenient header parsers
+        out.append(b'X-Powered-By junk without colon' + eol)
     for n, v in fields:
         if style == 'lower':
             n = n.lower()
@@ -150,6 +153,9 @@ def make(style, framing, body):
         fields.append(('Content-Length', str(len(wire))))
         fields.append(('Connection', 'close'))
         close = True
+    elif framing == 'n404':
+        status, reason = 404, 'Not Found'
+        fields.append(('Content-Length', str(len(wire))))
     elif framing == 'badcl':
         fields.append(('Content-Length', 'abc'))
         close = True
